@@ -320,6 +320,12 @@ func (f *Frame) havocAll(h *Heap) *Heap {
 	vc.Assume(Ge(na, h.Comp(allocComp, SInt)))
 	nh.comps[allocComp] = na
 	nh.epochBase = fmt.Sprintf("hv%d", vc.epoch)
+	for _, pc := range vc.privateCells {
+		if _, ok := h.comps[pc.comp]; !ok {
+			continue
+		}
+		vc.Assume(Eq(Sel(nh.Comp(pc.comp, pc.sort), pc.ref), Sel(h.Comp(pc.comp, pc.sort), pc.ref)))
+	}
 	return nh
 }
 
@@ -934,15 +940,29 @@ func (f *Frame) runDefers(st State, panicking bool) State {
 }
 
 func (f *Frame) runDefersCtx(st State, ctx *deferCtx) State {
-	saved := f.defers
+	saved, savedPCs := f.defers, f.deferPCs
 	savedCtx := f.dctx
-	f.defers = nil
+	f.defers, f.deferPCs = nil, nil
 	f.dctx = ctx
 	for i := len(saved) - 1; i >= 0; i-- {
-		nst, _ := f.call(saved[i], st)
-		st = nst
+		reg := savedPCs[i]
+		if reg.S == "true" || reg.S == st.PC.S {
+			nst, _ := f.call(saved[i], st)
+			st = nst
+			continue
+		}
+		// a defer statement reached only on some paths: the call runs exactly on those
+		// (it used to run on every path that reached the function's exit)
+		if callee := saved[i].Common().StaticCallee(); callee != nil && usesRecover(callee) {
+			f.fail("conditionally registered defer of a recovering function is outside the subset")
+		}
+		active := f.vc.Define("pc", And(st.PC, reg))
+		inactive := f.vc.Define("pc", And(st.PC, Not(reg)))
+		nst, _ := f.call(saved[i], State{PC: active, Heap: st.Heap})
+		pcs := []Term{nst.PC, inactive}
+		st = State{PC: f.vc.Define("pc", Or(pcs...)), Heap: f.mergeHeaps(pcs, []*Heap{nst.Heap, st.Heap})}
 	}
-	f.defers = saved
+	f.defers, f.deferPCs = saved, savedPCs
 	f.dctx = savedCtx
 	return st
 }
